@@ -158,7 +158,7 @@ impl ErrInto<ControllerSendError> for DetachError { open spec fn conv(self) -> C
 //@@ param fail : bool
 //@@ subst `fail.into()` => `Some(fail)` rule=R16 unless `fail\.into\(\)`
 //@@ subst `send_on_control_link(inner, sendable) ? .map_err(|_v0| match inner.link.session_stop_reason.get() { __E1 })` => `(match send_on_control_link(inner, sendable)?.recv() { Ok(__v) => Ok(__v), Err(_v0) => Err(match inner.link.session_stop_reason.get() { __E1 }) })` rule=R3,R19
-//@@ subst `|state| { if let DeliveryState::Rejected(rejected) = state { ControllerSendError::Rejected(rejected) } else { ControllerSendError::IllegalDeliveryState } }` => `|state: DeliveryState| -> (o: ControllerSendError) ensures (match state { DeliveryState::Rejected(rj) => o == ControllerSendError::Rejected(rj), _ => o is IllegalDeliveryState }) { if let DeliveryState::Rejected(rejected) = state { ControllerSendError::Rejected(rejected) } else { ControllerSendError::IllegalDeliveryState } }` rule=R18
+//@@ subst `|state| { __E1 }` => `|state: DeliveryState| -> (o: ControllerSendError) ensures (match state { DeliveryState::Rejected(rj) => o == ControllerSendError::Rejected(rj), _ => o is IllegalDeliveryState }) { __E1 }` rule=R18
 //@@ spec
     ensures
         final(inner).closes == old(inner).closes,       // (the control link is not closed by an exchange on it)
@@ -181,7 +181,7 @@ impl ErrInto<ControllerSendError> for DetachError { open spec fn conv(self) -> C
 //@@ nowhere
 //@@ param inner : &mut SenderInnerS
 //@@ subst `send_on_control_link(inner, sendable) ? .map_err(|_v0| match inner.link.session_stop_reason.get() { __E1 })` => `(match send_on_control_link(inner, sendable)?.recv() { Ok(__v) => Ok(__v), Err(_v0) => Err(match inner.link.session_stop_reason.get() { __E1 }) })` rule=R3,R19
-//@@ subst `|state| { if let DeliveryState::Rejected(rejected) = state { ControllerSendError::Rejected(rejected) } else { ControllerSendError::IllegalDeliveryState } }` => `|state: DeliveryState| -> (o: ControllerSendError) ensures (match state { DeliveryState::Rejected(rj) => o == ControllerSendError::Rejected(rj), _ => o is IllegalDeliveryState }) { if let DeliveryState::Rejected(rejected) = state { ControllerSendError::Rejected(rejected) } else { ControllerSendError::IllegalDeliveryState } }` rule=R18
+//@@ subst `|state| { __E1 }` => `|state: DeliveryState| -> (o: ControllerSendError) ensures (match state { DeliveryState::Rejected(rj) => o == ControllerSendError::Rejected(rj), _ => o is IllegalDeliveryState }) { __E1 }` rule=R18
 //@@ spec
     ensures
         final(inner).closes == old(inner).closes,       // (the control link is not closed by an exchange on it)
@@ -514,7 +514,7 @@ impl Transaction {
 //@@ nowhere
 //@@ param sendable : &Sendable
 //@@ ret Result<OutcomeS, PostError>
-//@@ subst `post_ref_inner(self.txn_id(), sender, sendable, false)?` => `post_ref_inner(self.txn_id(), sender, sendable, false)?.await_outcome()` rule=R3b
+//@@ subst `post_ref_inner(self.txn_id(), sender, sendable, __E1)?` => `post_ref_inner(self.txn_id(), sender, sendable, __E1)?.await_outcome()` rule=R3b
 //@@ spec
     ensures
         r is Ok ==> final(sender).inner.sent@ == old(sender).inner.sent@.push(Sent { body: sendable.message.body, settled: sendable.settled,
